@@ -57,13 +57,22 @@ impl Gate {
             }
         }
     }
-    /// Controller: wait until exactly the ids in `expect` are blocked (all unfinished have arrived).
+    /// Controller: wait until `expect` calls are blocked (all unfinished have arrived).
     pub fn wait_arrived(&self, expect: usize) -> Result<Vec<usize>, String> {
+        self.wait_arrived_or(expect, &std::sync::atomic::AtomicBool::new(false))
+    }
+    /// As `wait_arrived`, but also returns (with the calls that did arrive) as soon as `finished`
+    /// is set: the code under exploration ended without making all the expected objective calls,
+    /// which is for the oracle to judge, not a gate failure.
+    pub fn wait_arrived_or(&self, expect: usize, finished: &std::sync::atomic::AtomicBool) -> Result<Vec<usize>, String> {
         let (m, c) = &*self.inner;
         let mut g = m.lock().unwrap();
         let start = Instant::now();
         while g.arrived.len() < expect {
-            let (ng, _) = c.wait_timeout(g, Duration::from_millis(20)).unwrap();
+            if finished.load(std::sync::atomic::Ordering::SeqCst) {
+                break;
+            }
+            let (ng, _) = c.wait_timeout(g, Duration::from_millis(2)).unwrap();
             g = ng;
             if let Some(e) = &g.error {
                 return Err(e.clone());
@@ -105,6 +114,68 @@ impl Gate {
             }
         }
         Ok(())
+    }
+    /// Enforce the completion order `order` on the `n` calls of one step. Normally all `n` calls block
+    /// simultaneously and every order can be enforced. If the code under exploration does not run all
+    /// calls concurrently (fewer than the remaining calls are blocked after `patience`), the calls that
+    /// did arrive are released in their relative requested order and the step is reported as degraded
+    /// (not exhaustive) instead of failing.
+    pub fn drive(&self, order: &[usize], n: usize, finished: &std::sync::atomic::AtomicBool, patience: Duration) -> Result<bool, String> {
+        let (m, c) = &*self.inner;
+        let mut released: Vec<usize> = vec![];
+        let mut degraded = false;
+        let start = Instant::now();
+        while released.len() < n {
+            // wait for all remaining calls, or for `patience` with at least one call blocked
+            let mut g = m.lock().unwrap();
+            let wait_start = Instant::now();
+            loop {
+                let pending: Vec<usize> = g.arrived.iter().cloned().filter(|a| !released.contains(a)).collect();
+                if pending.len() >= n - released.len() {
+                    break;
+                }
+                if finished.load(std::sync::atomic::Ordering::SeqCst) {
+                    return Ok(degraded);
+                }
+                if !pending.is_empty() && wait_start.elapsed() > patience {
+                    degraded = true;
+                    break;
+                }
+                if let Some(e) = &g.error {
+                    return Err(e.clone());
+                }
+                if start.elapsed() > Duration::from_secs(30) {
+                    return Err(format!("gate: step did not make progress ({} of {} calls released after 30 s)", released.len(), n));
+                }
+                let (ng, _) = c.wait_timeout(g, Duration::from_millis(2)).unwrap();
+                g = ng;
+            }
+            let pending: Vec<usize> = g.arrived.iter().cloned().filter(|a| !released.contains(a)).collect();
+            drop(g);
+            let next = match order.iter().find(|id| pending.contains(id)) {
+                Some(id) => *id,
+                None => match pending.first() {
+                    Some(id) => *id,
+                    None => continue,
+                },
+            };
+            self.release(next);
+            released.push(next);
+            // wait until that call has returned its value (or the step ended)
+            let mut g = m.lock().unwrap();
+            let t = Instant::now();
+            while !g.done.contains(&next) {
+                if finished.load(std::sync::atomic::Ordering::SeqCst) {
+                    break;
+                }
+                if t.elapsed() > Duration::from_secs(10) {
+                    return Err(format!("gate: call {} did not finish within 10 s of its release", next));
+                }
+                let (ng, _) = c.wait_timeout(g, Duration::from_millis(2)).unwrap();
+                g = ng;
+            }
+        }
+        Ok(degraded)
     }
     pub fn take_error(&self) -> Option<String> {
         self.inner.0.lock().unwrap().error.take()
